@@ -295,7 +295,7 @@ func runC05(r *mc.Run) {
 			case 2:
 				o.CheckRevocations = false // L1: CRLs must not matter at all
 			}
-			err := world.SafeVerifyRaw(w.Raw(), o)
+			err := verifyRawBoth(r, id, w.Raw(), o)
 			// reference condition, evaluated on the bytes each endpoint actually served
 			crlGood := func(resp world.Response, ca *x509.Certificate, targets ...*big.Int) bool {
 				if resp.Err != nil {
@@ -407,7 +407,7 @@ func c05Positions(r *mc.Run, e *c05env) {
 			g.Responses[world.RootCRLURL] = world.Response{Body: world.MakeCRL(world.CRLSpec{Issuer: pki.Root, Signer: pki.RootKey, Revoked: list})}
 		}
 		now := w.Now
-		err := world.SafeVerifyRaw(w.Raw(), &verify.Options{GetCollateral: true, CheckRevocations: true, Getter: g, Now: &now, TrustedRoots: w.Roots})
+		err := verifyRawBoth(r, id, w.Raw(), &verify.Options{GetCollateral: true, CheckRevocations: true, Getter: g, Now: &now, TrustedRoots: w.Roots})
 		out := verdict(err)
 		switch {
 		case world.IsPanic(err):
